@@ -54,7 +54,7 @@ theorem callback_at_most_once (ops : List Op) : ((run St.init ops).cbs.map (·.i
   (Inv1.init.run ops).cbs_nodup
 
 example : ((run St.init [.express [⟨8, [97]⟩] false (some 100), .express [⟨8, [97]⟩] true none,
-    .data [⟨8, [97]⟩] [1], .data [⟨8, [97]⟩] [1], .setTime 200000, .timerStart 0, .timerRun 0]).cbs.map (·.id))
+    .data [⟨8, [97]⟩] [1], .data [⟨8, [97]⟩] [1], .setTime (100 + margin), .timerStart 0, .timerRun 0]).cbs.map (·.id))
     = [0, 1] := by decide
 
 /-- **exactly once after the deadline**: in every history, once the clock has passed
@@ -78,7 +78,7 @@ theorem callback_exactly_once_after_deadline (ops : List Op) (id : Nat) (x : Exp
     have := hquiet id tm h2 (by rw [h4, h7]; exact hlate)
     rcases h5 with h5 | ⟨h5, _⟩ <;> rcases this with h | h <;> rw [h] at h5 <;> cases h5
 
-example : ∃ c ∈ (run St.init [.express [⟨8, [97]⟩] false (some 100), .setTime 10100, .timerStart 0,
+example : ∃ c ∈ (run St.init [.express [⟨8, [97]⟩] false (some 100), .setTime (100 + margin), .timerStart 0,
     .timerRun 0]).cbs, c.id = 0 ∧ c.kind = .timeout := by decide
 
 /-! ### what a callback is given -/
@@ -102,8 +102,8 @@ theorem timeout_not_early (ops : List Op) : ∀ c ∈ (run St.init ops).cbs, c.k
   obtain ⟨x, h1, h2⟩ := (Inv1.init.run ops).tout c hc hk
   exact ⟨x, h1, by simp only [Spec.timeoutOk, Expr.toSpec]; exact decide_eq_true h2⟩
 
-example : (run St.init [.express [⟨8, [97]⟩] false (some 100), .setTime 10100, .timerStart 0,
-    .timerRun 0]).cbs = [⟨0, .timeout, 10100⟩] := by decide
+example : (run St.init [.express [⟨8, [97]⟩] false (some 100), .setTime (100 + margin), .timerStart 0,
+    .timerRun 0]).cbs = [⟨0, .timeout, 100 + margin⟩] := by decide
 
 /-- **resolves all**: in every history, when Data arrives, EVERY expressed Interest that has not been
     resolved yet and that the Data satisfies gets its callback invoked by that very arrival, with
@@ -216,9 +216,9 @@ theorem handler_is_longest_prefix (ops : List Op) (name : Name) (life : Option N
     rw [h]; exact ⟨_, _, rfl⟩
 
 example : (step (run St.init [.attach [⟨8, [97]⟩] 1, .attach [⟨8, [97]⟩, ⟨8, [98]⟩] 2, .attach [] 3,
-    .detach [⟨8, [97]⟩]]) (.interest [⟨8, [97]⟩, ⟨8, [98]⟩, ⟨8, [99]⟩] none)).2 = .handled (some 2) 4000000 0 ∧
+    .detach [⟨8, [97]⟩]]) (.interest [⟨8, [97]⟩, ⟨8, [98]⟩, ⟨8, [99]⟩] none)).2 = .handled (some 2) defaultLife 0 ∧
     (step (run St.init [.attach [⟨8, [97]⟩] 1, .attach [⟨8, [97]⟩, ⟨8, [98]⟩] 2, .attach [] 3,
-    .detach [⟨8, [97]⟩]]) (.interest [⟨8, [97]⟩, ⟨8, [99]⟩] none)).2 = .handled (some 3) 4000000 0 := by
+    .detach [⟨8, [97]⟩]]) (.interest [⟨8, [97]⟩, ⟨8, [99]⟩] none)).2 = .handled (some 3) defaultLife 0 := by
   decide
 
 /-! ### replies -/
